@@ -108,3 +108,13 @@ func (a *abiInserter) insert(data []byte) (n int, err error, panicked string) {
 	nr, err := a.ig.Insert(context.Background(), &a.mut, &a.conn, a.blk)
 	return int(nr), err, ""
 }
+
+// insertRows is insert plus the rows handed to CopyFrom by THIS call (nil when Insert failed before CopyFrom).
+func (a *abiInserter) insertRows(data []byte) (rows [][]any, err error, panicked string) {
+	a.conn.rows = a.conn.rows[:0]
+	_, err, panicked = a.insert(data)
+	if err != nil || panicked != "" {
+		return nil, err, panicked
+	}
+	return a.conn.rows, nil, ""
+}
